@@ -41,7 +41,8 @@ def crlf_device(sc, rng):
         d.bodies["status_temp"] = TEMP_BODY
         text = rng.choice(["41\r\n102_Command_completed_successfully", "41\nx", "7\r"])
         req = "temp %s" % node
-    pos = 2 * sc.tags["ncli"]
+    import C06
+    pos = C06.after_connects(sc.script)
     sc.script[pos:pos] = [("verdict", d.name, plug, text), ("send", 0, (req + "\r\n").encode()), ("wait", 0)]
     sc.requests.insert(0, dict(client=0, line=req, word=req.split()[0], targets=[node], mode="crlf", step=pos + 1))
     sc.tags["crlf"] = kind
@@ -61,7 +62,8 @@ def run(ctx, V):
         if i % 4 == 2 and crlf_device(sc, ctx.rng):
             V.count("crlf-device:" + sc.tags["crlf"])
         if i % 3 == 1:
-            sc.script[2 * sc.tags["ncli"]:2 * sc.tags["ncli"]] = [("send", 0, b"telemetry\r\n"), ("wait", 0)]
+            pos = C06.after_connects(sc.script)
+            sc.script[pos:pos] = [("send", 0, b"telemetry\r\n"), ("wait", 0)]
     V.rule = ("whole-daemon histories on pmsim (unmodified powermand under the virtual OS; generated configurations, 1-3 clients, valid and refused requests, "
               "device faults incl. garbage bytes echoed through telemetry; every 4th history has a device whose setresult / temperature capture admits CR LF and which answers one plug with CR / LF inside the captured text); monitors: alive, protocol (python), and the EXTRACTED recogniser Spec.Proto on every "
               "client's raw stream (ok_prefix always; ok + one terminal line per line sent for clients served to the end). non-trivial = a simulated device "
@@ -94,4 +96,5 @@ def run(ctx, V):
 
 
 def replay(ctx, V, path):
-    print(json.dumps(json.load(open(path)), indent=1)[:6000]); return 0
+    import C06
+    return C06.replay(ctx, V, path)
